@@ -171,7 +171,11 @@ def classify(case, clause, tid, mlines):
 
 def run(prop, tier, seed):
     kinds, (lo, hi) = PROPS[prop]
-    res = engine.build(tier, seed)
+    if prop == 'C19':
+        # its own corpus: timeouts on most steps and acts, a tick every other operation
+        res = engine.build(tier, seed, variant='-tmo', n=(240 if tier == 'quick' else 4000), gen_args=('tmo',))
+    else:
+        res = engine.build(tier, seed)
     agree, dis, cases, m, i = engine.compare(res, kinds | {'BUILD-FAILED', 'CASE-ERROR', 'GONE', 'OUT-OF-FUEL', 'START-FAILED'}, strip_site)
     vi = run_oracle(res['cases'], res['impl'])
     violations = []
@@ -192,8 +196,10 @@ def run(prop, tier, seed):
     for d in dis[:5]:
         broken.append(('correspondence', f"case {d['case']['id']}: model `{d['model']}` vs implementation `{d['impl']}` at projected line {d['at']} (line kinds {sorted(kinds)})"))
     # a disagreement without an oracle violation: keep the first case as replay material
+    if prop == 'C19':
+        nontrivial = len([cid for cid in cases if any(l.startswith('F ') for l in i.get(cid, []))])
     cov = {'evaluations': res['ncases'], 'distinct_nontrivial': nontrivial,
-           'rule': "generated workflows (steps, branches if/else/needs, acts irq/msg/set/block/parallel/sequence, catches, timeouts, setup hooks, conditions over inputs) with model-driven client histories (all ten action kinds, ticks; ~70% aimed at open acts, the rest at terminal / non-act / unknown tasks); distinct by construction from one PRNG; non-trivial = at least one accepted client action",
+           'rule': "generated workflows (steps, branches if/else/needs, acts irq/msg/set/block/parallel/sequence, catches, timeouts, setup hooks, conditions over inputs) with model-driven client histories (all ten action kinds, ticks; ~70% aimed at open acts, the rest at terminal / non-act / unknown tasks); distinct by construction from one PRNG; non-trivial = at least one accepted client action (C19: at least one rule firing)",
            'traces_validated_against_impl': agree, 'disagreements': len(dis),
            'input_distribution': res['distribution'], 'corpus_cases': res['ncorpus'],
            'samples': [json.loads(open(res['cases']).readline())]}
